@@ -210,3 +210,22 @@ def operator_coverage(module, cfg, meta, modules=("RBArena", "KeyExpTree"), work
             else:
                 res[f"{mod}.{name}"] = 0
     return res
+
+
+def apalache_check(module, init, nxt, inv, wd, timeout=900):
+    """Symbolic check (Apalache + Z3) of an invariant in the initial states of a module whose Init
+    chooses its variables arbitrarily inside the stated ranges: the invariant is then universally
+    quantified over those ranges.  Returns wall time; raises ToolError unless the outcome is NoError."""
+    shutil.copy(os.path.join(SPEC, module + ".tla"), os.path.join(wd, module + ".tla"))
+    t0 = time.time()
+    try:
+        p = subprocess.run(["apalache-mc", "check", f"--init={init}", f"--next={nxt}", f"--inv={inv}", "--length=0", module + ".tla"],
+                           cwd=wd, stdout=subprocess.PIPE, stderr=subprocess.STDOUT, text=True, timeout=timeout)
+    except subprocess.TimeoutExpired:
+        raise ToolError(f"apalache timed out on {module} / {inv}")
+    finally:
+        shutil.rmtree(os.path.join(wd, "_apalache-out"), ignore_errors=True)
+    if p.returncode != 0 or "The outcome is: NoError" not in p.stdout:
+        tail = "\n".join(p.stdout.splitlines()[-15:])
+        raise ToolError(f"apalache: {module} / {inv} is not NoError - the specification itself is broken:\n{tail}")
+    return time.time() - t0
